@@ -152,7 +152,7 @@ def _pair_judge(pid, tag, stage, cases, nchunks=None):
 
 def _suite_trace(tag, stage):
     """Run the recorded test suite; the trace of the stage's component, or None."""
-    exe = core.build_suite()
+    exe = core.build_suite(stage.get('program', 'tests'))
     if exe is None:
         return None, 'the wrapped test binary could not be built'
     os.makedirs(os.path.join(core.OUT, 'trace'), exist_ok=True)
@@ -234,8 +234,9 @@ def run(pid, tier, seed, t0):
                     f.write(json.dumps({'id': eid, 'comp': 'suite-' + st['comp'], 'test': eid.split('-')[1] if eid.count('-') >= 2 else eid,
                                         'ops': []}, separators=(',', ':')) + '\n')
             n = len(eps)
-            info['source'] = "the repository's gtest suite, calls recorded with ld --wrap (harness/suite/suite_wrap.cpp)"
-            core.log('%s: recorded test suite: %d %s episodes' % (pid, n, st['comp']))
+            info['source'] = "the repository's %s, calls recorded with ld --wrap (harness/suite/suite_wrap.cpp)" % \
+                ('gtest suite' if st.get('program', 'tests') == 'tests' else 'example program (example/main.cpp)')
+            core.log('%s: recorded %s program: %d %s episodes' % (pid, st.get('program', 'tests'), n, st['comp']))
         elif st['kind'] == 'mc':
             cfg = st['cfg'][tier]
             extra = ''
